@@ -134,6 +134,11 @@ type C04Case struct {
 	Doc      string  `json:"doc,omitempty"`
 	// shared: Doc holds one declaration applied by a single rule to elements of font sizes Sizes
 	Sizes []string `json:"sizes,omitempty"`
+	// page: declarations of one @page rule
+	Marks    string `json:"marks,omitempty"`     // "" = not declared
+	Bleed    string `json:"bleed,omitempty"`     // "" = not declared, "auto", or a length
+	BleedVia string `json:"bleed_via,omitempty"` // bleed (all sides) or bleed-left
+	PageFS   string `json:"page_fs,omitempty"`   // font-size of the page context ("" = not declared)
 }
 
 // c04SharedDecls: declarations whose value is a composite holding a font-relative length (U is the unit)
@@ -163,7 +168,17 @@ func c04GenNode(t *rapid.T, spec c04Spec, depth int, budget *int) C04Node {
 
 func c04Gen(t *rapid.T, tier Tier) interface{} {
 	c := &C04Case{}
-	switch rapid.IntRange(0, 12).Draw(t, "kind") {
+	switch rapid.IntRange(0, 13).Draw(t, "kind") {
+	case 13:
+		// a page context: initial values that still need computing (bleed: auto depends on marks), lengths
+		// relative to the font size of the page
+		c.Kind = "page"
+		c.Marks = rapid.SampledFrom([]string{"", "none", "crop", "cross", "crop cross", "cross crop"}).Draw(t, "marks")
+		c.Bleed = rapid.SampledFrom([]string{"", "", "auto", "auto", "5px", "6pt", "0", "1em", "0.5in"}).Draw(t, "bleed")
+		c.BleedVia = rapid.SampledFrom([]string{"bleed", "bleed-left"}).Draw(t, "bleedvia")
+		c.PageFS = rapid.SampledFrom([]string{"", "10px", "20px", "15pt"}).Draw(t, "pagefs")
+		c.Num = rapid.SampledFrom([]float64{1, 2, 0.5, 3}).Draw(t, "num")
+		c.Unit = rapid.SampledFrom([]string{"px", "pt", "em", "rem", "mm"}).Draw(t, "unit")
 	case 11, 12:
 		c.Kind = "shared"
 		d := rapid.SampledFrom(c04SharedDecls).Draw(t, "shared")
@@ -687,9 +702,77 @@ func c04Check(ci interface{}) Verdict {
 		return c04Units(c)
 	case "shared":
 		return c04Shared(c)
+	case "page":
+		return c04Page(c)
 	default:
 		return c04AllProps(c)
 	}
+}
+
+var c04ToPx = map[string]float64{"px": 1, "pt": 96.0 / 72, "in": 96, "mm": 96 / 25.4}
+
+// c04Page: the computed values of a page context. bleed: auto is 6pt when marks holds crop, else 0
+// (css-page-3 / GCPM); em refers to the font size of the page context, rem to the root element's (16px here).
+func c04Page(c *C04Case) Verdict {
+	labels := []string{"kind:page", "marks:" + c.Marks, "bleed:" + c.Bleed}
+	fs := 16.0
+	var decls []string
+	if c.PageFS != "" {
+		decls = append(decls, "font-size:"+c.PageFS)
+		n, _ := strconv.ParseFloat(strings.TrimRight(c.PageFS, "ptx"), 64)
+		fs = n * c04ToPx[c.PageFS[len(c.PageFS)-2:]]
+	}
+	toPx := func(n float64, unit string) float64 {
+		switch unit {
+		case "em":
+			return n * fs
+		case "rem":
+			return n * 16
+		}
+		return n * c04ToPx[unit]
+	}
+	if c.Marks != "" {
+		decls = append(decls, "marks:"+c.Marks)
+	}
+	wantBleed := 0.0
+	if strings.Contains(c.Marks, "crop") {
+		wantBleed = 8
+	}
+	if c.Bleed != "" {
+		decls = append(decls, c.BleedVia+":"+c.Bleed)
+		if c.Bleed != "auto" {
+			if c.Bleed == "0" {
+				wantBleed = 0
+			} else {
+				u := strings.TrimLeft(c.Bleed, "0123456789.")
+				n, _ := strconv.ParseFloat(strings.TrimSuffix(c.Bleed, u), 64)
+				wantBleed = toPx(n, u)
+			}
+		}
+	}
+	decls = append(decls, fmt.Sprintf("margin-left:%g%s", c.Num, c.Unit))
+	wantMargin := toPx(c.Num, c.Unit)
+	doc := `<!DOCTYPE html><html><head><style>@page{` + strings.Join(decls, ";") + `}</style></head><body><p>a</p></body></html>`
+	h, err := wr.ParseHTML(doc, wr.Opts{})
+	if err != nil {
+		return Verdict{Excluded: "html-rejected", Labels: labels}
+	}
+	var pageRules []tree.PageRule
+	sf := wr.Styles(h, nil, false, wr.SharedFC("pango"), nil, &pageRules, nil, true)
+	pt := utils.PageElement{Side: "right", First: true}
+	sf.SetPageComputedStylesT(pt, h)
+	st := sf.Get(pt, "")
+	if st == nil {
+		return Verdict{Excluded: "no-page-style", Labels: labels}
+	}
+	near := func(a, b float64) bool { return math.Abs(a-b) <= 1e-3*math.Max(1, math.Abs(b)) }
+	if got := st.GetBleedLeft(); got.Unit != pr.Px || !near(float64(got.Value), wantBleed) {
+		return Viol("page:bleed", "@page{%s}: bleed-left computes to %v, expected %gpx", strings.Join(decls, ";"), got, wantBleed)
+	}
+	if got := st.GetMarginLeft(); got.Unit != pr.Px || !near(float64(got.Value), wantMargin) {
+		return Viol("page:margin:"+c.Unit, "@page{%s}: margin-left computes to %v, expected %gpx", strings.Join(decls, ";"), got, wantMargin)
+	}
+	return Verdict{NonTrivial: c.Marks != "" || c.Unit == "em" || c.Unit == "rem", Labels: labels}
 }
 
 func init() {
